@@ -283,8 +283,8 @@ def execute(ctx, case):
 
 
 def run(ctx):
-    ctx.set_budget(60, 600)
-    ctx.explore(case_st, lambda c: execute(ctx, c), ctx.scale(7000, 120000))
+    ctx.set_budget(60, 840)
+    ctx.explore(case_st, lambda c: execute(ctx, c), ctx.scale(4000, 100000))
 
 
 def replay(ctx, case):
